@@ -233,7 +233,7 @@ def op_list(draw, max_modules=8, max_ops=30, with_save_load=False, big=False, wi
     valid = [0] + list(range(base + 1, base + n0 + 1))
     ops = []
     k = draw(st.integers(1, max_ops))
-    kinds = ["rshift", "lshift", "rshift_dis", "lshift_dis", "rshift_list", "lshift_list", "chain_r", "chain_l", "mlist_r_dis", "mlist_r_list", "mlist_l_list", "chain_r_list", "chain_l_list", "connect", "connect_single", "x", "x", "xmix", "xmix", "xlink", "new", "reuse", "reuse"]
+    kinds = ["rshift", "lshift", "rshift_dis", "lshift_dis", "rshift_list", "lshift_list", "chain_r", "chain_l", "mlist_r_dis", "mlist_r_list", "mlist_l_list", "chain_r_list", "chain_l_list", "connect", "connect_single", "x", "x", "xmix", "xmix", "xlink", "new", "reuse", "reuse", "xsame"]
     weights = kinds + ["rshift", "lshift", "rshift_dis", "lshift_dis", "connect", "connect", "rshift_list"]
     weights = weights + ["save", "save"]  # a user saves whenever they like; it must not disturb the tables
     if with_save_load:
@@ -280,6 +280,9 @@ def op_list(draw, max_modules=8, max_ops=30, with_save_load=False, big=False, wi
             ops.append(["connect_single", [idx(), draw(st.booleans())], [idx(), draw(st.booleans())]])
         elif kind == "x":
             ops.append(["x", draw(st.sampled_from(["rshift", "lshift", "connect_to", "connect_from", "connect_list", "dis"])), idx(), draw(st.integers(1, 2))])
+        elif kind == "xsame":
+            if base == 0:
+                ops.append(["xsame", idx(), idx(), draw(st.integers(0, 3))])
         elif kind == "reuse":
             sp = draw(st.sampled_from(["rshift", "lshift", "connect_to", "connect_from"]))
             ops.append(["reuse", sp, idxs(2, 3), [[i, draw(st.booleans())] for i in idxs(1, 3)]])
@@ -328,6 +331,16 @@ def run_ops(ctx, case, prop="C07", on_save_load=None):
                 raise PropertyViolation(prop + ".cross_project.unchanged", "step %d %r changed the link tables" % (step, op))
             if lm.tables(world.foreign) != foreign_before:
                 raise PropertyViolation(prop + ".cross_project.foreign_tables", "the refused operation changed the other project's tables: %r -> %r" % (foreign_before, lm.tables(world.foreign)))
+            continue
+        if op[0] == "xsame":
+            foreign_before = None
+            err = world.apply(op)
+            E.add((op[1], op[2]))
+            labels.add("cross_project_same_link_in_both")
+            if not isinstance(err, ModuleOwnershipError):
+                raise PropertyViolation(prop + ".cross_project.refused", "step %d %r: both projects hold the link %d -> %d; a request across them: expected ModuleOwnershipError, got %r" % (step, op, op[1], op[2], err))
+            lm.check_consistency(world.project, E, prop)
+            lm.check_consistency(world.foreign, None, prop)
             continue
         if op[0] == "xmix":
             # a refused request that also names modules of this project: whatever part of it was carried
